@@ -25,22 +25,28 @@ ALLOWED_AXIOMS = []
 RULE = (
     "api: 1-6 samples x 1-8 variants with 2-4 alleles, 1-5 haplotypes (+ interleaved repeats) of 1-4 alleles drawn "
     "from REF and every ALT, mostly copied from a real strand so that matches occur; non-trivial = some cell of the "
-    "result is 1 and some is 0, or an ancestry label is absent, or a variant/allele is absent. file: the same content "
-    "written as VCF.gz+tbi and PGEN, run through transform_haps / the CLI; non-trivial = at least one output record "
-    "with both 0 and 1 cells, or a haplotype omitted. Distinct = distinct canonical JSON."
+    "result is 1 and some is 0, or an ancestry label is absent, or a variant/allele is absent. file: the same kind of "
+    "content written as VCF.gz+tbi and PGEN (+ POP fields / a .bp file with permuted and extra samples), run through "
+    "transform_haps or the CLI with --region/--id/--sample; non-trivial = an output record with both 0 and 1 cells, or "
+    "a haplotype omitted. Distinct = distinct canonical JSON."
 )
 TRUSTED = [
     "pysam/bgzip/tabix, cyvcf2 and pgenlib store and return the records, samples and GT/POP values they are given "
     "(inputs are written by the harness with pysam/pgenlib, outputs read back with pysam/pgenlib)",
     "strings (IDs, alleles, labels, contigs, sample names) are interned to integers by the harness; only equality matters",
     "region semantics: REF alleles are one base long, so htslib's overlap test and the PGEN reader's position test coincide",
+    "'reported' is observed as a WARNING+ log record of haptools.transform that names an absent variant / omitted "
+    "haplotype or says that variants could not be found",
 ]
 ASSUMPTIONS = [
+    "genotypes are phased and complete (check_missing / check_phase / --discard-missing / --maf / --chunk-size are not modelled)",
     "genotype variant IDs are distinct (Genotypes.index raises otherwise); .hap IDs are distinct and differ from contig names",
     "ancestry labels have at most 6 characters and contigs at most 10 (the .bp reader's fixed-width fields)",
     "haplotype start >= 1 (a start of 0 cannot be written as a VCF POS)",
-    "a region is only combined with an indexed (.hap.gz + .tbi) haplotype file (an un-indexed one ignores the region)",
+    "a region or --id is only combined with an indexed (.hap.gz + .tbi) haplotype file whose haplotypes all have >= 1 "
+    "variant (an un-indexed file ignores the region; the indexed reader cannot fetch a haplotype without V lines)",
     "PGEN input is used only when at least one wanted variant is found (the empty-match failure belongs to C08)",
+    "file-level theorems: wf_file (distinct IDs, rectangular POP matrix, the region's contig occurs in the .hap file)",
 ]
 MAXI = 2**31 - 1
 BASES = ["A", "C", "G", "T"]
@@ -114,6 +120,8 @@ def gen_haps(rng, variants, data, labels, anc_at=None, missing_p=0.12, absent_al
             j = cols[0]
             v = variants[j]
             hv.append([v[0], v[3][int(rng.integers(0, len(v[3])))], v[2], v[2] + 1])
+        if rng.random() < 0.3:
+            hv = [hv[i] for i in rng.permutation(len(hv))]  # haplotype lists its alleles in another order than the genotypes
         start = min(x[2] for x in hv)
         end = max(x[3] for x in hv)
         anc = None
@@ -217,6 +225,11 @@ class Api(Relation):
             anc_at = lambda s, j, t: c2l[codes[s][j][t]]
             labels = [l for l, _ in lab2code]
         haps = gen_haps(rng, variants, data, labels, anc_at)
+        if rng.random() < 0.08:
+            # a missing call (255 after the uint8 cast) matches no allele
+            s0, j0, t0 = int(rng.integers(0, n)), int(rng.integers(0, p)), int(rng.integers(0, 2))
+            data[s0][j0][t0] = 255
+            kind += "+missing-call"
         r = rng.random()
         if r < 0.03:
             kind += "+dup-variant-id"
@@ -1055,7 +1068,10 @@ LEVEL_TEXT = (
 )
 LEVEL_NOTE = (
     "Trusted: Coq kernel/vm_compute; the hand-written model (validated only differentially); htslib/cyvcf2/pysam/pgenlib "
-    "as stores of records; interning of strings. Region semantics are modelled for one-base REF alleles; genotype "
-    "variant IDs are assumed distinct."
+    "as stores of records; interning of strings. Proved for the model, all sizes: single transforms = cell-by-cell "
+    "specification, set-wise = single, transform_haps output = file-level specification f_expected (records, sample "
+    "order, cells, ancestry by sample name), POP fields = .bp when they say the same, omitted => warned; the boolean "
+    "checkers evaluated on the implementation's output are proved sound. Not modelled: missing/unphased genotypes, "
+    "--discard-missing, --maf, --chunk-size, the text of log messages; region semantics only for one-base REF alleles."
 )
 TECHNIQUE = "Coq proof by induction on haplotype/variant lists + vm_compute-evaluated correspondence against the implementation"
